@@ -205,6 +205,16 @@ def run(ctx):
     ctx.ob("R-ARGMAX", "C17.4", gq, "quantile method: the cut-off is a weighted quantile of the same likelihood array that is searched", okq, "")
     ctx.floor("C17.4", 5)
 
+    # ---- C17.5 the weighted quantile is taken in log space --------------------------------------------------------
+    # the quantile method hands weighted_quantile un-normalised log-weights (logW, or logW + logL with
+    # include_likelihood=True, whose offset is the likelihood's): every exponential inside it must be of a shift-invariant
+    # quantity (weights normalised in log space first), or the weights under- / overflow, the quantile is NaN and no
+    # threshold can be chosen.  Decided with the log-space algebra of sa/lsa.py (shared with C16.3).
+    from .C16 import ess_rule as _ess17
+
+    _ess17(ctx, "C17.5", only=("weighted_quantile",))
+    ctx.floor("C17.5", 2)
+
     # ---- C17.5 up-front validation ---------------------------------------------------
     cc = ctx.fn(INS + ".check_configuration")
     tests = [canon(n.test) for n in walk_no_nested(cc.node) if isinstance(n, ast.If) and any(isinstance(x, ast.Raise) for x in n.body)]
